@@ -212,7 +212,8 @@ def check_conversion(rep, http, cfg):
                 if r['k'] == 'agg' and path_matches(r.get('adt'), 'crux_http::protocol::HttpHeader'):
                     fl = dict(zip(r['fields'], r['ops']))
                     def tostr_of(op, what):
-                        srcs = origins(ig, op)
+                        # (through at most String -> String `into()`: a spliced `HttpHeader::new(name: impl Into<String>, ..)`)
+                        srcs = origins(ig, op, extra_identity=[('core::convert::Into::into', 0), ('core::convert::From::from', 0)])
                         return bool(srcs) and all(o.kind == 'call' and call_matches(o.term, ['alloc::string::ToString::to_string']) and
                                                   what(origins(ig, o.term['args'][0])) for o in srcs)
                     name_ok = tostr_of(fl['name'], lambda os: bool(os) and all(o.kind == 'arg' and any('name' in t for t in o.suffix) for o in os))
